@@ -200,6 +200,20 @@ func NewClient(conn io.ReadWriteCloser, o ...ClientOpt) (*Client, error) {
 			return nil, ErrBadVersionString
 		}
 		c.version = version
+
+		// The server may offer a smaller message size than requested;
+		// everything sent from here on, and every reply solicited, has to
+		// fit in what it announced.
+		if rversion.MSize < c.messageSize {
+			if rversion.MSize <= msgDotLRegistry.largestFixedSize {
+				return nil, &ErrMessageTooLarge{
+					size:  rversion.MSize,
+					msize: msgDotLRegistry.largestFixedSize,
+				}
+			}
+			c.messageSize = rversion.MSize
+			c.payloadSize = roundDown(c.messageSize-msgDotLRegistry.largestFixedSize, 512)
+		}
 		break
 	}
 	return c, nil
